@@ -153,6 +153,37 @@ class Gen:
             ops = [o for o in ops if o in ('+', '-', '*', 'neg', 'abs', 'min', 'max', 'ifexpr', 'index', 'len')]
         op = rng.choice(ops)
         a = lambda: self.real(sc, d - 1)
+        extra = self.p.get('extra_ops')
+        if extra and not self.exact_only and rng.random() < self.p.get('extra_prob', 0.2):
+            # the rest of the language's numeric builtins (parser tables): operands rounded first, because the engines
+            # do not offer most of them for non-dyadic rationals
+            x = rng.choice(extra)
+            self.features.add('x:' + x)
+            ra = lambda: (f'fp.round({a()})' if rng.random() < 0.7 else a())
+            if x in ('cbrt', 'roundint', 'nearbyint', 'fabs'):
+                return f'fp.{x}({ra()})'
+            if x in ('copysign', 'fdim', 'fmod', 'remainder', 'hypot', 'fmin', 'fmax'):
+                return f'fp.{x}({ra()}, {ra()})'
+            if x == 'mod':
+                return f'({ra()} % {ra()})'
+            if x == 'powop':
+                return f'({ra()} ** {rng.choice(["2", "3", "0", "1", "-1", "-2", "4"])})'
+            if x == 'pow':
+                return f'fp.pow({ra()}, {rng.choice(["2", "3", "0", "-1", "5"])})'
+            if x == 'nan':
+                return 'fp.nan()'
+            if x == 'inf':
+                return rng.choice(['fp.inf()', '(-fp.inf())'])
+            if x == 'round_exact':
+                return f'fp.round_exact(fp.round({a()}))'
+            if x == 'logb':
+                return f'fp.logb({ra()})'
+            if x == 'fst':
+                return f'fp.fst(({a()}, {a()}))'
+            if x == 'snd':
+                return f'fp.snd(({a()}, {a()}))'
+            if x == 'round_at':
+                return f'fp.round_at({a()}, {rng.choice(["-1", "0", "1", "-3", "2"])})'
         if op in ('+', '-', '*', '/'):
             self.features.add('op' + op)
             return f'({a()} {op} {a()})'
@@ -228,6 +259,11 @@ class Gen:
                 return rng.choice(vb)
             return f'({self.real(sc, 0)} {rng.choice(["<", "<=", ">", ">=", "==", "!="])} {self.real(sc, 0)})'
         k = rng.random()
+        preds = self.p.get('preds')
+        if preds and rng.random() < self.p.get('pred_prob', 0.15):
+            pr = rng.choice(preds)
+            self.features.add('p:' + pr)
+            return f'fp.{pr}({self.real(sc, d - 1)})'
         if rng.random() < self.p.get('reduce_prob', 0):
             red = self.reduction(sc)
             if red:
